@@ -285,3 +285,43 @@ def shorthand_decision():
                     if den(got) != den(src):
                         bad.append({"items": sorted(src), "simplify_word": sw, "got": sorted(got)})
     return {"cases": n, "bad": bad[:10]}
+
+
+def _single_chunk(rng):
+    import re
+    from pvc import native as N
+    from pregex.core.classes import AnyFrom, AnyButFrom
+    N.install_noopt()
+    p, c = N._parser()
+    bad = []
+    for cp in range(*rng):
+        if 0xD800 <= cp <= 0xDFFF:
+            continue
+        ch = chr(cp)
+        try:
+            t = p.parse(str(AnyFrom(ch)), 24)
+            ok = len(t) == 1 and ((str(t[0][0]) == "LITERAL" and t[0][1] == cp) or
+                                  (str(t[0][0]) == "IN" and len(t[0][1]) == 1 and str(t[0][1][0][0]) == "LITERAL" and t[0][1][0][1] == cp))
+            t2 = p.parse(str(AnyButFrom(ch)), 24)
+            ok = ok and len(t2) == 1 and ((str(t2[0][0]) == "NOT_LITERAL" and t2[0][1] == cp) or
+                                          (str(t2[0][0]) == "IN" and len(t2[0][1]) == 2 and str(t2[0][1][0][0]) == "NEGATE"
+                                           and str(t2[0][1][1][0]) == "LITERAL" and t2[0][1][1][1] == cp))
+        except Exception:
+            ok = False
+        if not ok:
+            bad.append(cp)
+            if len(bad) > 5:
+                break
+    return bad
+
+
+def single_character_classes(workers=16):
+    """F4: AnyFrom(c) is the literal c and AnyButFrom(c) is 'not c', for EVERY code point c - read off CPython's parse of the
+    emitted pattern (one literal item, possibly in brackets; negated likewise), so the one-character collapse of __process and
+    the escaping of _to_pregex are decided completely for single characters"""
+    import multiprocessing
+    step = 0x110000 // (workers * 4) + 1
+    chunks = [(a, min(a + step, 0x110000)) for a in range(0, 0x110000, step)]
+    with multiprocessing.Pool(workers) as pool:
+        bad = [b for r in pool.map(_single_chunk, chunks) for b in r]
+    return {"code_points": 0x110000 - 2048, "bad": bad[:10]}
